@@ -1,13 +1,31 @@
 """C04: every transition-matrix builder returns a valid, stationary and (where promised) reversible model."""
-import copy
+import copy, os, sys
 from fractions import Fraction
 import numpy as np
-from core import cz, cn, cb, cq, clist, copt
+from core import cz, cn, cb, cq, clist, copt, VERIF
+sys.path.insert(0, os.path.join(VERIF, "translator"))
+import tr_builders
 
 PID = "C04"
 PROPS_FILE = "Props/C04.v"
-MODEL_TARGETS = ["Model/Builders.vo"]
-CASE_HEADER = "From Coq Require Import List QArith.\nFrom EV Require Import Builders.\nImport ListNotations.\nOpen Scope Q_scope.\n"
+MODEL_TARGETS = ["Model/Builders.vo", "Gen/BuildersGen.vo"]
+GEN_FILES = ["Gen/BuildersGen.v"]
+CASE_HEADER = ("From Coq Require Import List QArith Bool.\nFrom EV Require Import Builders BuildersBase BuildersGen.\n"
+               "Import ListNotations.\nOpen Scope Q_scope.\nOpen Scope bool_scope.\n"
+               "Definition gres (r : res (arr * arr * option (list Q))) : option result :=\n"
+               "  match r with Ok (c, t, o) => Some (a_val c, a_val t, o) | _ => None end.\n"
+               "Definition gkinds_ok (r : res (arr * arr * option (list Q))) (kc kt : kind) : bool :=\n"
+               "  match r with Ok (c, t, _) => kind_eqb (a_kind c) kc && kind_eqb (a_kind t) kt | _ => false end.\n"
+               "Definition ex_eig (T : arr) : option (list Q) := stationary (a_val T).\n"
+               "Definition no_eqp (T : arr) : res (list Q) := Ok [].\n"
+               "Definition no_prinz (C : arr) : res (arr * list Q) := Ok (mkarr KArr [], []).\n"
+               "Definition loop_X (X : mat) : arr -> list Q -> arr -> list Q -> arr * list Q :=\n"
+               "  fun _ _ _ _ => (mkarr KArr X, rowsums X).\n")
+
+
+def translate(repo):
+    return tr_builders.translate(repo)
+
 SHARD = 25
 RULE = ("random square count matrices, 2..6 states (mle 2..5), entries 0..5 with many zeros (some half-integer valued), "
         "classes: strongly connected (random Hamiltonian cycle forced; incl. bare cycles), all-rows-positive but "
@@ -16,9 +34,18 @@ RULE = ("random square count matrices, 2..6 states (mle 2..5), entries 0..5 with
         "csr/csc/coo/lil/dok/dia/bsr _matrix, csr_array, coo_array); the Coq model is compared (1e-9) with the ndarray "
         "result and one sparse container per case, the oracle checks every container; a malformed stream covers the "
         "rejecting paths (mle with a state without outgoing counts, prior of another shape, non-square counts); "
+        "round 2: the builders regenerated from the current builders.py / eq_probs (Gen/BuildersGen.v) are evaluated "
+        "too -- numbers against the sparse container of the case, container kinds of counts/probabilities against all "
+        "10 containers; 1000-state sparse chains (fast mixing, and a slowly mixing ring on which ARPACK fails) are "
+        "run on the real code through eq_probs' ARPACK path, oracle only; "
         "plus small scope: all 2x2 count matrices over {0,1,2} (thorough: all; and a third of the 3x3 0/1 matrices); "
         "non-trivial := accepted, >= 3 states, counts not symmetric and with at least one zero entry")
-TRUSTED = ["modelled not verified: LAPACK eig behind eq_probs/eigenspectrum (its output is compared at 1e-9 with the exact "
+TRUSTED = ["translator/tr_builders.py (statement-by-statement translation of _apply_prior_counts, _row_normalize, "
+           "normalize, transpose, mle, prologue/guards/final step of _prinz_mle_py, eq_probs; ownership analysis "
+           "rejecting in-place writes into buffers shared with an argument) and the numpy/scipy conventions written "
+           "down in Base/BuildersBase.v (which container kind an operation returns, sparse + number raising "
+           "NotImplementedError except for DOK) -- the kinds are compared with the implementation's on every case",
+           "modelled not verified: LAPACK eig behind eq_probs/eigenspectrum (its output is compared at 1e-9 with the exact "
            "stationary vector computed and checked in Coq), scipy sparse container conversions and arithmetic",
            "mle: only the guard and the post-iteration step are modelled; the symmetric X handed to the model is "
            "reconstructed from the implementation's own output as (diag(pi)T + (diag(pi)T)^T)/2 (the iteration is C12)",
@@ -463,14 +490,56 @@ def _expected(rk):
     return "(Some (%s, %s, %s))" % (_cmat(rk["C"]), _cmat(rk["T"]), pi)
 
 
+_FMT = {"csr": "Csr", "csc": "Csc", "coo": "Coo", "lil": "Lil", "dok": "Dok", "dia": "Dia", "bsr": "Bsr"}
+
+
+def _ckind(name):
+    if name == "ndarray":
+        return "KArr"
+    if name == "matrix":
+        return "KMat"
+    f, fam = name.split("_")
+    return "(KSp %s %s)" % ("true" if fam == "array" else "false", _FMT[f])
+
+
+def _gen_term(c, r, kind, kinds_only=False):
+    """the builder regenerated from the source, on the container `kind`"""
+    b = c["builder"]
+    args = "(mkarr %s Cm) Pr %s" % (_ckind(kind), cb(c["eq"]))     # Cm, Pr: bound once per case in coq_check
+    if b == "normalize":
+        return "(gen_normalize %s %s)" % ("no_eqp" if kinds_only else "(gen_eq_probs ex_eig)", args)
+    if b == "transpose":
+        return "(gen_transpose %s)" % args
+    if kinds_only:
+        return "(gen_mle no_prinz %s)" % args
+    ref = r["by_kind"]["ndarray"] if r is not None else {"err": "-"}
+    pi = r.get("mle_pi") if r is not None else None
+    if "err" in ref or pi is None or ref.get("T") is None:
+        X = "(@nil (list Q))"
+    else:
+        X = "(sym_of %s %s)" % (clist(pi, _cqs, "Q"), _cmat(ref["T"]))
+    return "(gen_mle (gen_prinz_mle_py (loop_X %s)) %s)" % (X, args)
+
+
 def coq_check(c, r):
     if c.get("kind") == "big":
         return None       # 1000-state chains are outside what the exact Coq solve evaluates; oracle only
     if "by_kind" not in r:
         return None
     bk = r["by_kind"]
-    return "(let m := %s in andb (result_close (1#1000000000) m %s) (result_close (1#1000000000) m %s))" % (
-        _model_term(c, r), _expected(bk["ndarray"]), _expected(bk[c["kind"]]))
+    parts = ["(let m := %s in result_close (1#1000000000) m %s)" % (_model_term(c, r), _expected(bk["ndarray"])),
+             "(let g := gres %s in result_close (1#1000000000) g %s)" % (_gen_term(c, r, c["kind"]), _expected(bk[c["kind"]]))]
+    for k in KINDS:
+        rk = bk[k]
+        if "err" in rk or rk.get("kC") is None:
+            continue
+        try:
+            kc, kt = _ckind(rk["kC"]), _ckind(rk["kT"])
+        except (KeyError, ValueError):
+            parts.append("false")
+            continue
+        parts.append("(gkinds_ok %s %s %s)" % (_gen_term(c, r, k, kinds_only=True), kc, kt))
+    return "(let Cm := %s in let Pr := %s in %s)" % (_cmat(c["C"]), _cprior(c["prior"]), " && ".join(parts))
 
 
 def coq_show(c):
